@@ -22,6 +22,7 @@ HAZARDS = {
     "str_null",        # string concat/trim with a null operand
     "int_div",         # integer / // % (documented convention)
     "minmax_null",     # two-argument max/min with a null operand
+    "limit0",          # order_rows(limit=0)
 }
 
 
@@ -501,6 +502,8 @@ class Gen:
                     tot = True
             if tot:
                 limit = rng.randint(1, max(1, st.nrows()))
+        if "limit0" in self.p.allow and not final and rng.random() < 0.06:
+            limit = 0
         return {"op": "order_rows", "cols": cols, "reverse": rev, "limit": limit}, {}
 
     def step_join(self, st, depth_left):
